@@ -413,9 +413,11 @@ def run(ctx):
         ctx.notes.append("coq part not available: %r" % (e,))
     if C13_coq is not None:
         coq_ok = C13_coq.run_coq(ctx)
+        ctx.c13_fx = coq_ok
 
     # ---------------- 2. build harness
-    overlay = {"server/zz_verif_crash.go": "harness/crash/inj/zz_verif_crash.go"}
+    overlay = {"server/zz_verif_crash.go": "harness/crash/inj/zz_verif_crash.go",
+               "server/zz_verif_crash_pure.go": "harness/crash/inj/zz_verif_crash_pure.go"}
     exe = ctx.go_build("crashrun", os.path.join(VERIF, "harness", "crash"), overlay=overlay)
     cover_exe = None
     try:
@@ -423,8 +425,10 @@ def run(ctx):
     except Exception as e:
         ctx.notes.append("coverage build failed: %s" % str(e)[-300:])
     ctx.obligation("harness/crash builds against the working tree of %s (overlay injection, -tags verif)" % REPO, True)
-    if C13_coq is not None:
-        C13_coq.run_correspondence(ctx, exe)
+    corr = None
+    if C13_coq is not None and coq_ok is not None:
+        corr = C13_coq.run_correspondence(ctx, exe)
+    ctx.c13_corr = corr
 
     R = Runner(ctx, exe, cover_exe)
     try:
@@ -626,6 +630,8 @@ def _run_monitor(ctx, R, tier, t_start):
         "outcomes": {"connection": dict(d["outcome"]), "first_reply": dict(d["reply"].most_common(40)),
                      "lingering_blocked_connections": R.stats["linger"]},
         "go_statement_coverage_of_sampled_batches": cov,
+        "pure_function_correspondence": getattr(ctx, "c13_corr", None),
+        "model_switches": getattr(ctx, "c13_fx", None),
         "wall_monitor_s": round(time.time() - t_start, 1),
     }
     return ctx.finish(coverage, assumptions=[
@@ -642,7 +648,8 @@ def build_cover_binary():
     with vlib.Lock("go-crashrun-cover"):
         shutil.rmtree(src, ignore_errors=True)
         shutil.copytree(REPO, src, ignore=shutil.ignore_patterns(".git", "append.aof*", "*.aof", "data"))
-        shutil.copy(os.path.join(VERIF, "harness", "crash", "inj", "zz_verif_crash.go"), os.path.join(src, "server", "zz_verif_crash.go"))
+        for inj in ("zz_verif_crash.go", "zz_verif_crash_pure.go"):
+            shutil.copy(os.path.join(VERIF, "harness", "crash", "inj", inj), os.path.join(src, "server", inj))
         shutil.rmtree(mod, ignore_errors=True)
         os.makedirs(mod)
         shutil.copy(os.path.join(VERIF, "harness", "crash", "main.go"), mod)
